@@ -457,7 +457,36 @@ class GuardWalk:
         ds = self.defs.get(name)
         if ds is None or len(ds) != 1:
             return None
+        if name in self.mutated_roots() and ds[0][0] == 'value' and \
+                isinstance(ds[0][1], (ast.Call, ast.List, ast.Dict, ast.Set, ast.ListComp,
+                                      ast.BinOp)):
+            return None    # an object updated in place is not its initialiser
         return ds[0]
+
+    def sole_binding(self, name: str) -> Optional[Tuple]:
+        """the unique binding of a local, even if the object is later updated in place"""
+        if name in self.params:
+            return None
+        ds = self.defs.get(name)
+        return ds[0] if ds is not None and len(ds) == 1 else None
+
+    def mutated_roots(self):
+        if getattr(self, '_mut_roots', None) is None:
+            roots = set()
+            for ev in self.events:
+                t = None
+                if ev.kind in ('store', 'augstore', 'attrstore', 'delete'):
+                    t = ev.target
+                    t = t.value if isinstance(t, (ast.Subscript, ast.Attribute)) else None
+                elif ev.kind == 'call' and isinstance(ev.node.func, ast.Attribute) \
+                        and ev.node.func.attr in MUTATORS:
+                    t = ev.node.func.value
+                while isinstance(t, (ast.Subscript, ast.Attribute)):
+                    t = t.value
+                if isinstance(t, ast.Name):
+                    roots.add(t.id)
+            self._mut_roots = roots
+        return self._mut_roots
 
     def expand(self, e: ast.AST, rename: Optional[Dict[str, str]] = None, depth: int = 8,
                stop: Iterable[str] = ()) -> ast.AST:
